@@ -15,7 +15,14 @@ import (
 	"strings"
 )
 
-const repoDir = "/repo"
+// repoDir is the tree under verification: /repo, unless VERIF_REPO points at a scratch
+// copy with a deliberately broken change applied (sensitivity self-test only).
+var repoDir = func() string {
+	if d := os.Getenv("VERIF_REPO"); d != "" {
+		return d
+	}
+	return "/repo"
+}()
 
 var verifDir = func() string {
 	if d := os.Getenv("VERIF_DIR"); d != "" {
